@@ -1,0 +1,60 @@
+//go:build verif
+
+package minter
+
+import (
+	"github.com/MinterTeam/minter-go-node/coreV2/appdb"
+	"github.com/MinterTeam/minter-go-node/coreV2/state"
+	"github.com/MinterTeam/minter-go-node/coreV2/transaction"
+	"github.com/MinterTeam/minter-go-node/coreV2/types"
+	abciTypes "github.com/tendermint/tendermint/abci/types"
+)
+
+// Accessors for the verification harness. Only compiled with the `verif` build tag.
+
+// VerifExecutor returns the transaction executor currently in use.
+func (blockchain *Blockchain) VerifExecutor() transaction.ExecutorTx {
+	return blockchain.executor
+}
+
+// VerifAppDB returns the application DB.
+func (blockchain *Blockchain) VerifAppDB() *appdb.AppDB {
+	return blockchain.appDB
+}
+
+// VerifStateDeliver returns the deliver state.
+func (blockchain *Blockchain) VerifStateDeliver() *state.State {
+	return blockchain.stateDeliver
+}
+
+// VerifWaitSnapshots blocks until background snapshot goroutines are done.
+func (blockchain *Blockchain) VerifWaitSnapshots() {
+	blockchain.appDB.WG.Wait()
+	blockchain.wgSnapshot.Wait()
+}
+
+// VerifHaltDecision reports what BeginBlock would decide about halting at the given
+// height with the given votes, without calling stop() (which exits the process).
+// It mirrors the prefix of BeginBlock that feeds the decision: validator statuses
+// from the vote list, calculatePowers over the current validators, and then
+// isApplicationHalted(height) && !grace.IsUpgradeBlock(height).
+// It mutates only validatorsStatuses/validatorsPowers/totalPower, which every
+// BeginBlock recomputes from scratch.
+func (blockchain *Blockchain) VerifHaltDecision(height uint64, votes []abciTypes.VoteInfo) bool {
+	blockchain.lockValidators.Lock()
+	blockchain.validatorsStatuses = map[types.TmAddress]int8{}
+	for _, v := range votes {
+		var address types.TmAddress
+		copy(address[:], v.Validator.Address)
+		if v.SignedLastBlock {
+			blockchain.validatorsStatuses[address] = ValidatorPresent
+		} else {
+			blockchain.validatorsStatuses[address] = ValidatorAbsent
+		}
+	}
+	blockchain.lockValidators.Unlock()
+
+	blockchain.calculatePowers(blockchain.stateDeliver.Validators.GetValidators())
+
+	return blockchain.isApplicationHalted(height) && !blockchain.grace.IsUpgradeBlock(height)
+}
